@@ -2,6 +2,7 @@
 
 from __future__ import annotations
 
+import math
 from dataclasses import dataclass, field
 from typing import Any, ClassVar, SupportsIndex
 
@@ -22,6 +23,20 @@ from nix_manipulator.expressions.trivia import (
 )
 
 MAX_INLINE_LIST_WIDTH = 100
+
+
+def _coerce_list_item(item: Any) -> NixExpression:
+    """Coerce a list element; negative Python numbers need parentheses
+    (`[ -1 ]` is not valid Nix: the minus would be a binary operator)."""
+    if (
+        isinstance(item, (int, float))
+        and not isinstance(item, bool)
+        and math.copysign(1.0, item) < 0
+    ):
+        from nix_manipulator.expressions.parenthesis import Parenthesis
+
+        return Parenthesis(value=coerce_expression(item))
+    return coerce_expression(item)
 
 
 def process_list(node: Node):
@@ -120,7 +135,7 @@ class NixList(TypedExpression):
             return True
 
         for item in self.value:
-            expr = coerce_expression(item)
+            expr = _coerce_list_item(item)
             if self._item_requires_multiline(expr):
                 return True
 
@@ -134,7 +149,7 @@ class NixList(TypedExpression):
         if not self.value:
             return "[ ]"
         items = [
-            coerce_expression(item).rebuild(indent=indent, inline=True)
+            _coerce_list_item(item).rebuild(indent=indent, inline=True)
             for item in self.value
         ]
         return f"[ {' '.join(items)} ]"
@@ -189,7 +204,7 @@ class NixList(TypedExpression):
 
         def render_item(item: NixExpression | str | int | bool | float | None) -> str:
             """Render list items consistently based on multiline decision."""
-            expr = coerce_expression(item)
+            expr = _coerce_list_item(item)
             return expr.rebuild(indent=indented, inline=not multiline)
 
         items = [render_item(item) for item in self.value]
